@@ -34,7 +34,48 @@ func build(c cmdCase) (smbgen.Cmd, smbgen.Entry, error) {
 	if err := smbgen.Restore(cmd, c.Fields); err != nil {
 		return nil, e, err
 	}
+	// "every string buffer format the command uses": a string is given in the format its command puts on the
+	// wire for it (read off the wire once per structure; the generator draws only that format, so for a
+	// generated case this changes nothing). The property asks nothing about other formats.
+	smbgen.AdoptWireFormats(cmd)
 	return cmd, e, nil
+}
+
+// heldFormats returns the buffer format every own string field of cmd holds. It is taken before cmd is
+// encoded: what the decoded structure must hold is the format of the assignment, and whether an encoder that
+// decides the format itself writes it back into its receiver is not asked.
+func heldFormats(cmd smbgen.Cmd) map[string]uint64 {
+	m := map[string]uint64{}
+	rv := reflect.ValueOf(cmd).Elem()
+	for _, f := range smbgen.OwnFields(cmd) {
+		if str, ok := stringOf(rv.FieldByName(f.Name)); ok {
+			m[f.Name] = str.FieldByName("BufferFormat").Uint()
+		}
+	}
+	return m
+}
+
+func stringOf(v reflect.Value) (reflect.Value, bool) {
+	switch v.Type().String() {
+	case "types.OEM_STRING":
+		return v.FieldByName("SMB_STRING"), true
+	case "types.SMB_STRING":
+		return v, true
+	}
+	return v, false
+}
+
+// ownFieldEqual compares own field name of the encoded structure (a) and the decoded one (b). A string field
+// is compared by content and by the format it held when it was assigned (formats), which the decoded field
+// must hold - not by what a holds after Marshal; everything else as fieldsEqual does.
+func ownFieldEqual(name string, a, b reflect.Value, formats map[string]uint64) bool {
+	if as, ok := stringOf(a); ok {
+		if f, held := formats[name]; held {
+			bs, _ := stringOf(b)
+			return bs.FieldByName("BufferFormat").Uint() == f && bytes.Equal(as.FieldByName("Buffer").Bytes(), bs.FieldByName("Buffer").Bytes())
+		}
+	}
+	return fieldsEqual(a, b)
 }
 
 // errKind names a failed stage without the error's wording: a reworded message or a different index in
@@ -104,6 +145,8 @@ func sameExported(a, b reflect.Value) bool {
 
 // fieldsEqual compares one own field of two commands; strings are compared by
 // format and content (the Length field is derived), everything else through its exported fields.
+// (A command's own string fields go through ownFieldEqual, which takes the format from the assignment
+// as it was before encoding; the string case here is left for strings nested in other values.)
 func fieldsEqual(a, b reflect.Value) bool {
 	switch a.Type().String() {
 	case "types.SMB_STRING":
@@ -173,6 +216,7 @@ func checkRoundtrip(c cmdCase) []vf.Finding {
 	if err != nil {
 		return []vf.Finding{vf.F("harness", "bad-case", "%v", err)}
 	}
+	formats := heldFormats(cmd)
 	enc, err := safeMarshal(cmd)
 	if err != nil {
 		return []vf.Finding{vf.F(c.Struct, errKind("marshal", err), "%v", err)}
@@ -184,7 +228,7 @@ func checkRoundtrip(c cmdCase) []vf.Finding {
 	var fs []vf.Finding
 	cv, dv := reflect.ValueOf(cmd).Elem(), reflect.ValueOf(dec).Elem()
 	for _, f := range smbgen.OwnFields(cmd) {
-		if !fieldsEqual(cv.FieldByName(f.Name), dv.FieldByName(f.Name)) {
+		if !ownFieldEqual(f.Name, cv.FieldByName(f.Name), dv.FieldByName(f.Name), formats) {
 			got, _ := json.Marshal(dv.FieldByName(f.Name).Interface())
 			want, _ := json.Marshal(cv.FieldByName(f.Name).Interface())
 			if len(got) > 120 {
@@ -556,6 +600,7 @@ func checkOffsets(c offsetCase) []vf.Finding {
 	if c.Field != "" {
 		reflect.ValueOf(cmd).Elem().FieldByName(c.Field).SetUint(uint64(c.Offset))
 	}
+	formats := heldFormats(cmd)
 	enc, err := safeMarshal(cmd)
 	if err != nil {
 		return []vf.Finding{vf.F(c.Base.Struct, errKind("marshal", err), "%v", err)}
@@ -572,7 +617,7 @@ func checkOffsets(c offsetCase) []vf.Finding {
 	}
 	cv, dv := reflect.ValueOf(cmd).Elem(), reflect.ValueOf(dec).Elem()
 	for _, f := range smbgen.OwnFields(cmd) {
-		if !fieldsEqual(cv.FieldByName(f.Name), dv.FieldByName(f.Name)) {
+		if !ownFieldEqual(f.Name, cv.FieldByName(f.Name), dv.FieldByName(f.Name), formats) {
 			return []vf.Finding{vf.F(subject, kind, "field %s not preserved", f.Name)}
 		}
 	}
